@@ -429,7 +429,9 @@ def gen_grammar_direct(rng, force):
                               "opt": True if row == "optlist" else rng.choice([None, False])}])
     else:
         br = row != "bmap"
-        prods.append(["ROW", {"t": "map", "open": "(" if br else None, "key": keysym, "assign": rng.choice([":", "="]), "val": "VALUE",
+        # the value symbol is sometimes the key symbol itself (positions in the pair are then not found by name)
+        prods.append(["ROW", {"t": "map", "open": "(" if br else None, "key": keysym, "assign": rng.choice([":", "="]),
+                              "val": rng.choice(["VALUE", "VALUE", "VALUE", keysym]),
                               "delim": ",", "close": ")" if br else None,
                               "opt": True if row == "optmap" else (rng.choice([None, False]) if br else None),
                               "afd": rng.choice([None, True, False])}])
@@ -780,7 +782,8 @@ def render(rng, toks, messy):
     return "".join(out) + tail
 
 
-def make_case(rng, g, reject=False, max_depth=None, max_len=6):
+def make_case(rng, g, reject=False, max_depth=None, max_len=6, toks_out=None):
+    """toks_out: a list that receives the tokens of the text (for texts cut at a token boundary)"""
     max_depth = max_depth or rng.choice([1, 2, 2, 3, 3, 4, 5])
     for _ in range(30):
         dv = Deriver(rng, g, max_depth, max_len, reject=reject)
@@ -791,6 +794,8 @@ def make_case(rng, g, reject=False, max_depth=None, max_len=6):
         if reject and not dv.planted:
             continue
         text = render(rng, toks, messy=rng.random() < 0.7)
+        if toks_out is not None:
+            toks_out[:] = toks
         gg = {k: v for k, v in g.items() if not k.startswith("_")}
         return {"k": "parse", "g": gg, "d": d, "text": text, "expect": "reject" if reject else "ok"}
     return None
@@ -895,9 +900,13 @@ def make_history(rng, g, second=None, sweep=False):
     that give per-call arguments (start_symbol_name, do_cleanup) or fail in between.  second = None | "keep" (a second
     parser object with the same keep_symbols set object) | "copy" (equal but separate set) | "tmpl" (a second parser
     is constructed from the SAME template objects)"""
-    main = make_case(rng, g, max_depth=rng.choice([2, 3, 3, 4]), max_len=4)
-    if not main:
-        return None
+    main_toks = []
+    for _ in range(8 if sweep else 1):
+        main = make_case(rng, g, max_depth=rng.choice([2, 3, 3, 4]), max_len=4, toks_out=main_toks)
+        if not main:
+            return None
+        if not sweep or sum(1 for tk in main_toks if tk[1] in (",", "|", ";")) >= 3:
+            break           # a sweep wants a main text with some delimiters in it
     g.pop("_p", None)
     gg = main["g"]
 
@@ -927,12 +936,16 @@ def make_history(rng, g, second=None, sweep=False):
         what = what or rng.choice(LOOKS + ["descr", "error"])
         st = {"op": "look", "p": p, "what": what}
         if what == "error":
+            # a text that is not accepted.  Mostly the main text cut at a token boundary, so that the parser fails INSIDE a
+            # container (the ParsingError is built from the table cell of the symbol that failed: a tail symbol when the
+            # text ends right after a delimiter), sometimes with a stray token appended; garbage; a lexical error
             t = main["text"]
-            cut = t[:rng.randint(0, max(0, len(t) - 1))]        # usually ends inside a container
-            dl = [i for i, ch in enumerate(t) if ch in ",|;"]
-            after = t[:rng.choice(dl) + 1] if dl else cut         # ends right after a delimiter: the parser fails in a tail symbol
-            st["text"] = rng.choice([t + rng.choice([" ]", " >", " ) ;", " , ,", " [ {"]), cut, after, after, cut + rng.choice([" ,", " |", " ;"]),
-                                     "@", rng.choice(["]", ";;", "[ , ,", "{ : }"])])
+            n = len(main_toks)
+            dl = [i + 1 for i, tk in enumerate(main_toks[:-1]) if tk[1] in (",", "|", ";")]
+            k = rng.choice(dl) if (dl and rng.random() < 0.6) else rng.randint(0, max(0, n - 1))
+            cut = render(rng, main_toks[:k], messy=False)
+            st["text"] = rng.choice([cut, cut, cut, cut, cut, cut + rng.choice([" ,", " |", " ;", " ]", " :"]),
+                                     t + rng.choice([" ]", " >", " ) ;", " , ,", " [ {"]), "@", rng.choice(["]", ";;", "[ , ,", "{ : }"])])
         return st
 
     nts = nonterminals(g)
@@ -963,6 +976,10 @@ def make_history(rng, g, second=None, sweep=False):
         for i, what in enumerate(whats):
             steps.append(look(what=what))
             steps.append(default_call(main if i % 3 != 2 else other, clean=rng.choice([True, True, "two"])))
+        # a call with debug=True (prints and logs every step of the parse), then the main text once more
+        dbg = default_call(other)
+        dbg["debug"] = True
+        steps += [dbg, default_call(main)]
         rej = make_case(rng, g, reject=True, max_depth=2, max_len=3)
         g.pop("_p", None)
         if rej:
